@@ -223,9 +223,16 @@ func (v *VStruct) validate(structName string, value reflect.Value, isValidGather
 	return v
 }
 
+// structTypeCacheKey 缓存的 key, 同一个结构体在不同 targetTag 下解析出的验证规则是不同的
+type structTypeCacheKey struct {
+	ty  reflect.Type
+	tag string
+}
+
 // getCacheStructType 获取缓存中的 reflect.Type
 func (v *VStruct) getCacheStructType(ty reflect.Type) structType {
-	if obj, ok := cacheStructType.Load(ty); ok {
+	cacheKey := structTypeCacheKey{ty: ty, tag: v.targetTag}
+	if obj, ok := cacheStructType.Load(cacheKey); ok {
 		return obj.(structType)
 	}
 
@@ -245,7 +252,7 @@ func (v *VStruct) getCacheStructType(ty reflect.Type) structType {
 		}
 		obj.fieldInfos[fieldNum] = info
 	}
-	cacheStructType.Store(ty, obj)
+	cacheStructType.Store(cacheKey, obj)
 	return obj
 }
 
